@@ -416,6 +416,14 @@ Lemma execute_state_inv : forall w, InvL None w -> wp execute_state (IQ None) w.
 Proof. intros. unfold execute_state. walk. Qed.
 #[export] Hint Resolve execute_state_inv : inv.
 
+Lemma run_armed_inv : forall fuel ran w, InvL None w -> wp (run_armed fuel ran) (IQ None) w.
+Proof.
+  induction fuel as [|fuel IH]; intros ran w Hw; cbn [run_armed].
+  - apply wp_raise. exact Hw.
+  - walk.
+Qed.
+#[export] Hint Resolve run_armed_inv : inv.
+
 Lemma finish_step_inv : forall x w, InvL None w -> wp (finish_step x) (IQ None) w.
 Proof. intros. unfold finish_step. walk. Qed.
 #[export] Hint Resolve finish_step_inv : inv.
